@@ -38,6 +38,11 @@ type edge struct {
 	st    *State
 }
 
+type dryCtx struct {
+	start *ssa.BasicBlock
+	backs []edge
+}
+
 type loopInfo struct {
 	ord   int
 	spec  *LoopSpec
@@ -74,6 +79,7 @@ type Frame struct {
 	curInstr ssa.Instruction
 	dryBacks []edge
 	dryStart *ssa.BasicBlock
+	dryStack []*dryCtx
 	depth    int
 }
 
@@ -406,13 +412,13 @@ func (fr *Frame) cutLoop(h *ssa.BasicBlock, phis []*ssa.Phi, reach T, st *State)
 		fr.outs[k] = v
 	}
 	ex.dry++
-	prevBacks, prevStart := fr.dryBacks, fr.dryStart
-	fr.dryBacks, fr.dryStart = nil, h
+	dc := &dryCtx{start: h}
+	fr.dryStack = append(fr.dryStack, dc)
 	prevLoop := fr.loops[h]
 	delete(fr.loops, h)
 	fr.runRegion(li.body, h, reach, st.clone(), true)
-	backs := fr.dryBacks
-	fr.dryBacks, fr.dryStart = prevBacks, prevStart
+	backs := dc.backs
+	fr.dryStack = fr.dryStack[:len(fr.dryStack)-1]
 	if prevLoop != nil {
 		fr.loops[h] = prevLoop
 	}
@@ -531,9 +537,14 @@ func clauseName(c *Clause, i int) string {
 // backEdge: at a jump back to header h: invariants are preserved.
 func (fr *Frame) backEdge(from, h *ssa.BasicBlock, reach T, st *State) {
 	ex := fr.ex
-	if fr.dryStart == h && fr.loops[h] == nil {
-		fr.dryBacks = append(fr.dryBacks, edge{to: h, reach: reach, st: st})
-		return
+	if fr.loops[h] == nil {
+		// a dry run of the loop headed by h is in progress (possibly an enclosing one)
+		for i := len(fr.dryStack) - 1; i >= 0; i-- {
+			if fr.dryStack[i].start == h {
+				fr.dryStack[i].backs = append(fr.dryStack[i].backs, edge{to: h, reach: reach, st: st})
+				return
+			}
+		}
 	}
 	li := fr.loops[h]
 	if li == nil {
